@@ -16,15 +16,17 @@ CFG = dict(
                "the source). The repaired iter_segments (fix 7940035) is what is modelled; the pre-repair loop is kept as "
                "iter_segments_legacy with four _refuted witnesses. Model tied to the code on every run by three correspondences "
                "(process, lex on real templated files, lex on synthetic slice lists) plus direct observation of the property.",
-    level_note="Trusted: Coq kernel; the hand-written model (tie = sampled correspondence: quick ~1.8k templated sources x 13 styles, "
-               "2.2k synthetic slice lists; thorough 30k + 33k); the regex engine (fancy_regex captures_iter) is an oracle whose "
+    level_note="Trusted: Coq kernel; the hand-written model (tie = sampled correspondence: quick ~2.4k templated sources x 19 styles (11 built-in + 8 custom regexes), "
+               "2.2k synthetic slice lists; thorough 36k + 33k); the regex engine (fancy_regex captures_iter) is an oracle whose "
                "answer is recorded and whose contract H_caps is monitored on every call; the SQL lexer's tokenisation is an oracle "
                "(the lexed elements are recorded by lexing the rendered string on its own; contract wf_elems monitored); "
                "matcher.name == 'whitespace' is observed as SyntaxKind::Whitespace; config parsing is not modelled (the placeholder "
                "section map is read back from the FluffConfig); to_source clamps a negative intermediate to 0 where the code wraps "
                "(unreachable on slice lists the constructor accepts); only byte offsets (no char-boundary panics) are modelled.",
-    rule="placeholder sources: 12 base queries + rule-fixture snippets, 0-4 placeholders of one of the 11 built-in styles or two "
-         "custom regexes (named / positional), placed as a separate token, glued to an identifier, inside a quoted string, inside a "
+    rule="placeholder sources: 12 base queries + rule-fixture snippets, 0-4 placeholders of one of the 11 built-in styles or eight "
+         "custom regexes (named; positional; four whose param_name group is optional so that one file mixes named and positional "
+         "placeholders, incl. numeric names colliding with positions; extra capture groups beside param_name; a param_name that can "
+         "match the empty string), placed as a separate token, glued to an identifier, inside a quoted string, inside a "
          "whitespace run, adjacent, at file start/end; values absent/empty/int/bool/shorter/equal/longer/multi-token/multi-line/"
          "blank-padded/invalid (float, none); 13 dialects. synthetic: rendered strings of words, blanks, commas, quotes, comments, "
          "newlines cut at random offsets into literal/templated slices with zero-length slices of several types in between, plus a "
